@@ -110,6 +110,17 @@ class TupleV(V):
         return f"Tuple{list(self.items)!r}"
 
 
+class NTupleV(TupleV):
+    """An instance of a typing.NamedTuple class: a tuple whose items can also be read by field name."""
+
+    def __init__(self, items, cls, fields):
+        super().__init__(items)
+        self.cls, self.fields = cls, list(fields)
+
+    def __repr__(self):
+        return f"{self.cls.name}{list(self.items)!r}"
+
+
 class ListV(V):
     """Reference to a mutable list living in the state's heap (so forks of the state do not share it)."""
 
@@ -1241,6 +1252,13 @@ class Interp:
             return self.val(st, ExtV(v.name + "." + attr))
         if isinstance(v, OpaqueV):
             return self.val(st, OpaqueV(f"{v.tag}.{attr}"))
+        if isinstance(v, NTupleV) and attr in v.fields:
+            return self.val(st, v.items[v.fields.index(attr)])
+        if isinstance(v, NTupleV) and v.cls.lookup(attr) is not None:
+            m = v.cls.lookup(attr)
+            if m.kind == "property":
+                return self.call_function(m, [v], {}, st, node)
+            return self.val(st, FuncV(m) if m.kind == "staticmethod" else FuncV(m, v))
         if isinstance(v, (SeqV, ListV, TupleV, DictV, BufV)):
             return self.val(st, _BoundBuiltin(v, attr))
         if isinstance(v, StubV):
@@ -1503,6 +1521,27 @@ class Interp:
         if cls.has_external_base("Exception") or cls.has_external_base("ValueError") \
                 or cls.has_external_base("RuntimeError"):
             return self.val(st, ExtV("exc:" + cls.name))
+        rec = record_fields(cls)
+        if rec is not None and cls.lookup("__init__") is None:
+            kind, fields = rec
+            vals = {}
+            for (fname, default), a in zip(fields, args):
+                vals[fname] = a
+            for k, v in kwargs.items():
+                if k not in [f for f, _ in fields] or k in vals:
+                    return self.raise_(st, "TypeError", node)
+                vals[k] = v
+            for fname, default in fields:
+                if fname not in vals:
+                    if default is None:
+                        return self.raise_(st, "TypeError", node)
+                    vals[fname] = self.eval_in_module(default, cls.module, node, cls=cls)
+            if len(args) > len(fields):
+                return self.raise_(st, "TypeError", node)
+            if kind == "namedtuple":
+                return self.val(st, NTupleV([vals[f] for f, _ in fields], cls, [f for f, _ in fields]))
+            obj = st.new_obj(cls, fields=dict(vals))
+            return self.val(st, obj)
         obj = st.new_obj(cls)
         init = cls.lookup("__init__")
         if init is None:
@@ -1768,7 +1807,7 @@ class Interp:
                 return self.val(st, ExtV("exc:" + short))
             if short in ("print", "repr", "id", "type", "callable", "hasattr", "getattr", "sum", "map", "filter",
                          "sorted", "list", "tuple", "any", "all", "enumerate", "zip", "set", "float", "round", "abs",
-                         "reversed"):
+                         "reversed", "iter", "next"):
                 return self.builtin_misc(short, args, kwargs, st, node)
             self.unsupported(node, f"builtin {short}")
         if name.startswith("struct.Struct:") and short.startswith("Struct:") is False:
@@ -1796,6 +1835,13 @@ class Interp:
     def builtin_misc(self, short, args, kwargs, st, node):
         if short == "float":
             return self.val(st, FloatV("float()"))
+        if short in ("iter", "next") and len(args) >= 1 and isinstance(args[0], OpaqueV):
+            return self.val(st, OpaqueV(f"{short}({args[0].tag})"))
+        if short == "next" and len(args) >= 1 and isinstance(args[0], (TupleV, ListV)) and st.items(args[0]):
+            # (only reached as next(iter(<sequence>)): iter() hands the sequence on, so this is its first element)
+            return self.val(st, st.items(args[0])[0])
+        if short == "iter" and len(args) == 1 and isinstance(args[0], (TupleV, ListV, GenV)):
+            return self.val(st, args[0])      # (consumed once, in order, by the `for` / unpacking that follows)
         if short in ("list", "tuple") and len(args) == 1 and isinstance(args[0], GenV):
             res = []
             for o in self.consume(args[0], st, node):
@@ -2270,6 +2316,17 @@ class Interp:
                 for i, sub in enumerate(t.elts):
                     self.assign_target(sub, OpaqueV(f"{v.tag}[{i}]"), st, node)
                 return [Out("next", st)]
+            if isinstance(v, ObjV) and v.cls.lookup("__iter__") is not None and not getattr(node, "_sa_iter", False):
+                # an object that can be unpacked through its own __iter__
+                res = []
+                for o in self.call_function(v.cls.lookup("__iter__"), [v], {}, st, node):
+                    if o.kind != "val":
+                        res.append(o)
+                    elif isinstance(o.value, (TupleV, ListV)):
+                        res.extend(self.assign_target(t, o.value, o.st, node))
+                    else:
+                        self.unsupported(node, "destructuring of an object whose __iter__ is not a plain sequence")
+                return res
             self.unsupported(node, "destructuring")
         if isinstance(t, ast.Attribute):
             def go(base, s2):
@@ -2585,6 +2642,21 @@ def _base_tag(v: SeqV):
 
 def _pieces_tags(v: SeqV):
     return [(p[0], p[2] if p[0] in ("param", "const", "str-of") else None) for p in v.pieces]
+
+
+def record_fields(cls):
+    """('namedtuple' | 'dataclass', [(field, default expression or None)]) for a typing.NamedTuple / @dataclass class."""
+    is_nt = any(isinstance(b, str) and b.split(".")[-1] == "NamedTuple" for b in cls.bases)
+    is_dc = any(ast.unparse(d).split("(")[0].split(".")[-1] == "dataclass" for d in cls.node.decorator_list)
+    if not (is_nt or is_dc):
+        return None
+    fields = []
+    for st_ in cls.node.body:
+        if isinstance(st_, ast.AnnAssign) and isinstance(st_.target, ast.Name):
+            if "ClassVar" in ast.unparse(st_.annotation):
+                continue
+            fields.append((st_.target.id, st_.value))
+    return ("namedtuple" if is_nt else "dataclass"), fields
 
 
 def sym_bool(st: State, name: str) -> BoolV:
